@@ -10,6 +10,7 @@
 import Proofs.CostProofs
 import Proofs.CodecProofs
 import Proofs.FullReadProofs
+import Proofs.SizeBounds
 namespace Pyctr.C19
 open Pyctr
 
@@ -54,5 +55,17 @@ theorem C19_ncch_full_read (E : Bytes → Bytes → Bytes) (s : Ncch.State) (fil
     (Ncch.plan s (offset - offset % 0x200) (Ncch.fullChunks r.size file.length start offset size)).length
       ≤ Ncch.fullChunks r.size file.length start offset size :=
   ⟨Ncch.fullRead_plan E s file start offset size r hr, Ncch.fullChunks_bound _ _ _ _ _, Ncch.plan_length s _ _⟩
+
+/-- **what a parser builds is bounded**: a loaded TMD holds fewer than 2^16 content records and at most 64 info records, a
+    cartridge header at most 8 partitions, an ExeFS header at most 10 entries, and a CIA content index of `n` bytes marks at
+    most `8 n` contents - so a full traversal of what was parsed is bounded by a constant of the format, whatever the counts
+    and sizes inside the input claim -/
+theorem C19_parsed_sizes :
+    (∀ (H : Bytes → Bytes) (v : Bool) (b : Bytes) (t : Tmd.T), Tmd.load H v b = .ok t →
+      t.chunkRecords.length < 65536 ∧ t.infoRecords.length ≤ 64) ∧
+    (∀ h : Bytes, (Cci.partsOf h).length ≤ 8) ∧
+    (∀ (hdr : Bytes) (es : List Exefs.Entry), Exefs.parse hdr = .ok es → es.length ≤ 10) ∧
+    (∀ index : Bytes, (Cia.activeContents index).length ≤ 8 * index.length) :=
+  ⟨Tmd.load_sizes, Cci.partsOf_length, Exefs.parse_length, Cia.activeContents_bound⟩
 
 end Pyctr.C19
